@@ -741,6 +741,7 @@ pub fn main(args: &util::Args) {
                 effects: true,
                 wildcard_arrays: false,
                 nested_patterns: true,
+                ..Default::default()
             };
             let (src, feats) = crate::progen::gen_program(&mut rng, cfg);
             let id = format!("gen:{}:{}", args.seed, i);
